@@ -6,7 +6,6 @@
 
 import asyncio
 import logging
-import math
 from collections.abc import Sequence
 from datetime import datetime, timedelta
 from typing import SupportsIndex, overload
@@ -179,9 +178,9 @@ class MovingWindow(BackgroundService):
             self._sampling_period = resampler_config.resampling_period
 
         # Sampling period might not fit perfectly into the window size.
-        num_samples = math.ceil(
-            size.total_seconds() / self._sampling_period.total_seconds()
-        )
+        # Ceil division in the exact integer arithmetic of timedelta, the float
+        # division can be off (e.g. 2.1 / 0.3 == 7.000000000000001).
+        num_samples = -(-size // self._sampling_period)
 
         self._resampled_data_recv = resampled_data_recv
         self._buffer = OrderedRingBuffer(
